@@ -30,7 +30,7 @@ def cases(draw, tier):
     pre = draw(st.one_of(st.none(), W.input_waves(n, lanes)))      # an earlier assignment + propagation on the same simulator object
     return dict(nl=nl, lanes=lanes, waves=waves, pre=pre, dpool=draw(W.DELAY_POOL), caps=draw(W.CAPS),
                 c_reuse=draw(st.sampled_from([False, False, True])), props=draw(st.integers(1, 2)),
-                api=draw(st.integers(0, 3)), ctime=draw(st.one_of(st.none(), st.integers(0, 600))), f64=draw(st.booleans()), strip_forks=draw(st.booleans()), cuda=draw(st.sampled_from([False, False, False, True])))
+                api=draw(st.integers(0, 3)), ctime=draw(st.one_of(st.none(), st.integers(0, 600), st.sampled_from(['far-', 'far+']))), f64=draw(st.booleans()), strip_forks=draw(st.booleans()), cuda=draw(st.sampled_from([False, False, False, True])))
 
 
 def run(case, b, c_reuse=False, caps=None, cls=None):
@@ -52,10 +52,13 @@ def run(case, b, c_reuse=False, caps=None, cls=None):
     W.apply_inputs(sim, b, nl, case['waves'])
     for _ in range(case.get('props', 1)):          # propagating again without a new assignment must give the same waveforms
         sim.c_prop()
-    if case.get('ctime') is None:
+    ct = case.get('ctime')
+    if ct is None:
         sim.c_to_s()
+    elif isinstance(ct, str):       # capture far before / far after all transitions with an uncertain capture time: settled data are the same
+        sim.c_to_s(time=-10000.0 if ct == 'far-' else 100000.0, sd=0.5)
     else:
-        sim.c_to_s(time=case['ctime'] / W.GRID)
+        sim.c_to_s(time=ct / W.GRID)
     return sim
 
 
